@@ -1,3 +1,6 @@
+module String = Stdlib.String
+module List = Stdlib.List
+module Char = Stdlib.Char
 (* drv — evaluates the extracted Coq models / checkers on the cases the Rust harness printed.
    Reads one S-expression per line on stdin; prints one verdict line per case:
      OK <nontrivial:0|1>
@@ -571,12 +574,109 @@ let c07 = function
         | p :: _ -> Printf.sprintf "FAIL key=%s the generated automaton differs from the lookahead sets: %s" (Stdlib.List.hd (Stdlib.String.split_on_char ' ' p)) p))
   | _ -> "FAIL malformed case"
 
+(* C09 *)
+let rec factor_of_sx (x : Sexp.t) : Ebnf.factor =
+  match x with
+  | A _ -> let i = int_of_sx x in if i >= 0 then Ebnf.FT (n_of_int i) else Ebnf.FN (n_of_int (-i - 1))
+  | L (A "g" :: alts) -> Ebnf.FGroup (Stdlib.List.map alt_of_sx alts)
+  | L (A "o" :: alts) -> Ebnf.FOpt (Stdlib.List.map alt_of_sx alts)
+  | L (A "r" :: alts) -> Ebnf.FRep (Stdlib.List.map alt_of_sx alts)
+  | _ -> failwith "factor"
+and alt_of_sx = function L fs -> Stdlib.List.map factor_of_sx fs | _ -> failwith "alt"
+
+let egrammar_of_sx = function
+  | L (st :: ps) ->
+    { Ebnf.estart = n_of_int (int_of_sx st);
+      eprods = Stdlib.List.map (function L (l :: alts) -> (n_of_int (int_of_sx l), Stdlib.List.map alt_of_sx alts) | _ -> failwith "eprod") ps }
+  | _ -> failwith "egrammar"
+
+let rec efactor_terms (f : Ebnf.factor) : BinNums.coq_N list = match f with
+  | Ebnf.FT t -> [t] | Ebnf.FN _ -> []
+  | Ebnf.FGroup a | Ebnf.FOpt a | Ebnf.FRep a -> Stdlib.List.concat_map (Stdlib.List.concat_map efactor_terms) a
+let rec efactor_has_nesting (f : Ebnf.factor) = match f with Ebnf.FT _ | Ebnf.FN _ -> false | _ -> true
+
+let c09 = function
+  | [_; _; _; A "panic"] -> "FAIL key=panic reading the grammar panicked"
+  | [_; _; _; L [A "rejected"; _]] -> "OK 0 rejected"
+  | [mode; g; L names; L [A "ok"; st; L prods]] ->
+    let is_lr = (mode = A "lr") in
+    let g' = egrammar_of_sx g in
+    let user = Stdlib.List.map str_of_sx names in
+    let nuser = Stdlib.List.length user in
+    (* number the result's non-terminals: user names keep their index, new names follow *)
+    let table = ref user in
+    let find_index x l = let rec go i = function [] -> None | y :: t -> if y = x then Some i else go (i + 1) t in go 0 l in
+    let idx name = (match find_index name !table with
+        | Some i -> i | None -> table := !table @ [name]; Stdlib.List.length !table - 1) in
+    let bprods = Stdlib.List.map (function
+        | L (l :: rhs) -> { Cfg.lhs = n_of_int (idx (str_of_sx l));
+                            rhs = Stdlib.List.map (function S nm -> Cfg.NT (n_of_int (idx nm)) | x -> Cfg.T (n_of_int (int_of_sx x))) rhs }
+        | _ -> failwith "rprod") prods in
+    let b = { Cfg.start = n_of_int (idx (str_of_sx st)); prods = bprods } in
+    (* language of every defined user non-terminal, all strings up to a bound *)
+    let ts = Stdlib.List.sort_uniq compare (Stdlib.List.concat_map (fun (_, alts) -> Stdlib.List.concat_map (Stdlib.List.concat_map efactor_terms) alts) g'.Ebnf.eprods) in
+    let bound = if Stdlib.List.length ts <= 1 then 6 else if Stdlib.List.length ts <= 2 then 4 else 3 in
+    let ws = strings ts bound in
+    let defined = Stdlib.List.sort_uniq compare (Stdlib.List.map fst g'.Ebnf.eprods) in
+    let bad = Stdlib.List.find_map (fun a ->
+        let ga = { g' with Ebnf.estart = a } in
+        Stdlib.List.find_map (fun w ->
+            let e = (match Ebnf.emember (Ebnf.emember_fuel ga w) ga w with Some x -> x | None -> failwith "emember fuel") in
+            let m = (match Member.member_from (Member.member_fuel b w) b [Cfg.NT a] w with Some x -> x | None -> failwith "member fuel") in
+            if e <> m then Some (a, w, e) else None) ws) defined in
+    (* the faithful model: exact comparison and freshness of its name table *)
+    let cl s = chars_of_string s and sl l = string_of_chars l in
+    let model = Canon.canon_named (Canon.canon_fuel g') is_lr g' (Stdlib.List.map cl user) in
+    let real_named = Stdlib.List.map (function
+        | L (l :: rhs) -> (str_of_sx l, Stdlib.List.map (function S nm -> "N:" ^ nm | x -> "T:" ^ string_of_int (int_of_sx x)) rhs)
+        | _ -> failwith "rprod") prods in
+    let model_named = (match model with
+        | Canon.Ok l -> Some (Stdlib.List.map (fun (n, rhs) -> (sl n, Stdlib.List.map (function Canon.NTm t -> "T:" ^ string_of_int (int_of_n t) | Canon.NNt s -> "N:" ^ sl s) rhs)) l)
+        | Canon.Err _ -> None) in
+    let names' = (match Canon.canon (Canon.canon_fuel g') is_lr g' (Stdlib.List.map cl user) with
+        | Canon.Ok (_, n) -> Stdlib.List.map sl n | Canon.Err _ -> []) in
+    let collision = Stdlib.List.length (Stdlib.List.sort_uniq compare names') <> Stdlib.List.length names' in
+    let nested = Stdlib.List.exists (fun (_, alts) -> Stdlib.List.exists (Stdlib.List.exists efactor_has_nesting) alts) g'.Ebnf.eprods in
+    ignore nuser;
+    (match bad with
+     | Some (a, w, e) ->
+       Printf.sprintf "FAIL key=%s non-terminal %d: %s is %s by the grammar as written but %s by the plain productions" 
+         (if collision then "helper-name-collision" else "language-changed") (int_of_n a) (show_word w)
+         (if e then "derived" else "not derived") (if e then "not derived" else "derived")
+     | None ->
+       if collision then "FAIL key=helper-name-collision a generated helper name coincides with a name already used in the grammar (no distinguishing string up to the bound)"
+       else Printf.sprintf "OK %d %s %s" (if nested then 1 else 0) (if is_lr then "lr" else "ll")
+           (if model_named = Some real_named then "model-exact" else "differs-from-model"))
+  | _ -> "FAIL malformed case"
+
+(* C16 *)
+let c16_mode = function
+  | [_; _; A "panic"] -> "FAIL key=panic generate_build_information panicked"
+  | [_; _; nl; ws; au; L entries] ->
+    if int_of_sx au = 1 then "OK 0 allow-unmatched-mode"
+    else begin
+      let rs = Stdlib.List.filter_map (function
+          | L [_; la; _; rx] when int_of_sx la = 0 && rx <> L [A "unsupported"] -> Some (regex_of_sx rx)
+          | _ -> None) entries in
+      match RegexEquiv.total_on_chars_list_cex rs with
+      | None -> Printf.sprintf "OK 1 total newline:%d ws:%d" (int_of_sx nl) (int_of_sx ws)
+      | Some c ->
+        let c' = int_of_n c in
+        Printf.sprintf "FAIL key=%s code point %d is matched by no rule of a scanner state without %%allow_unmatched: it becomes an unmatched gap that is silently skipped"
+          (if c' = 10 && int_of_sx nl = 0 then "line-feed-not-covered-with-auto-newline-off" else "char-not-covered") c'
+    end
+  | _ -> "FAIL malformed case"
+
 let dispatch (sx : Sexp.t) : string =
   match sx with
   | L (A "lev" :: args) -> c31 args
   | L (A "eval" :: args) -> c08 args
   | L (A "aug" :: args) -> c12 args
   | L (A "wf" :: args) -> c11 args
+  | L (A "mode" :: args) -> c16_mode args
+  | L [A "modes"; _; A "rejected"] -> "OK 0 grammar-rejected"
+  | L [A "modes"; _; A "panic"] -> "FAIL key=panic reading the grammar panicked"
+  | L (A "canon" :: args) -> c09 args
   | L (A "la" :: args) -> c07 args
   | L (A "ktseq" :: args) -> c32 args
   | L (A "lf" :: args) -> c10 args
